@@ -94,9 +94,9 @@ CHECKS["C19"] = cfg(
     "C19", exhaustive=True,
     technique="runtime monitoring: reference duplicate-free list model compared after every operation; exhaustive op sequences to bounded length, state-graph closure, random histories, constructor/serde lists",
     level_text="Every OrderedSet/OneOrSet/OneOrMany operation is executed on the real collection and on a harness list model; result flag and full order are compared after each step, exhaustively for all op sequences up to a per-universe length, for every (reachable state x op) transition, and for long random histories; all short lists (with duplicates/empties) go through every constructor and serde path.",
-    min={"quick": {"json_other_path_roundtrips": 20000, "json_borrowed_roundtrips": 200, "oneormany_singleton_bare": 100, "oset_exhaustive_sequences": 30000000, "oset_closure_steps": 4000, "oset_rand_steps": 150000, "oset_tryfrom_rejected": 500,
+    min={"quick": {"direct_steps": 100000, "direct_sequences": 3000, "direct_list_cases": 200, "direct_json_roundtrips": 4000, "direct_ctor_rejected": 150, "direct_ctor_accepted": 150, "json_other_path_roundtrips": 20000, "json_borrowed_roundtrips": 200, "oneormany_singleton_bare": 100, "oset_exhaustive_sequences": 30000000, "oset_closure_steps": 4000, "oset_rand_steps": 150000, "oset_tryfrom_rejected": 500,
                    "json_roundtrips": 30000, "oneorset_checks": 10000, "oneorset_rejected_duplicates": 1000, "oneormany_checks": 5000, "nontrivial": 30000000},
-         "thorough": {"oset_exhaustive_sequences": 1000000000, "oset_closure_steps": 50000, "oset_rand_steps": 3000000, "nontrivial": 1000000000}},
+         "thorough": {"direct_steps": 1000000, "direct_sequences": 30000, "direct_list_cases": 200, "oset_exhaustive_sequences": 1000000000, "oset_closure_steps": 50000, "oset_rand_steps": 3000000, "nontrivial": 1000000000}},
     thorough=[{"flavour": "checked", "shards": 16, "timeout": 3000},
               {"flavour": "miri", "tier": "quick", "shards": 16, "timeout": 14400, "args": {"scale": 1}}],
     assumptions=["iter_mut_unchecked/head_mut/tail_mut/clear are documented as invariant-breaking and not part of the histories",
@@ -185,12 +185,12 @@ CHECKS["C09"] = cfg(
     "C09", level="fault_enumeration", exhaustive=True,
     technique="runtime monitoring with fault injection: fault-injecting JwkStorage/KeyIdStorage wrappers, exhaustive enumeration of failing-call subsets per scenario (incl. undo path), before/after observation of document and both stores",
     level_text="For generate_method and purge_method on CoreDocument and IotaDocument every subset of failing storage call occurrences (discovered by dry runs and grown to a fixpoint so that undo-path calls are included) is injected, over every scope/fragment form/target shape (embedded in each relationship, general purpose with each of the 32 reference subsets), both poll orders of the joined deletes; document (methods with scopes, relationship references, services) and both stores are compared as sets before/after: Ok => everything in place and signing works / everything gone; Err other than UndoOperationFailed => observably unchanged. Seeded random generate/purge/attach histories with per-call fault masks on top.",
-    min={"quick": {"purge_target_undigestable": 800, "purge_err_clean:undigestable": 200, "purge_err_clean:halfbacked": 1000, "purge_err_clean:foreign_namesake": 3000,
+    min={"quick": {"arg_scenarios": 3000, "real_failure_checked_clean": 3000, "real_failure_checked_clean:supported_key_type_other_alg": 300, "shipped_histories": 5000, "shipped_generate_err_clean:supported-key-type-other-alg": 5000, "shipped_generate_ok": 6000, "shipped_generate_sign_verified": 6000, "shipped_purge_ok": 2500, "shipped_purge_err_clean:key-gone-from-store": 1000, "shipped_purge_err_clean:keyid-gone-from-store": 1000, "shipped_purge_err_clean:absent": 3000, "purge_target_undigestable": 800, "purge_err_clean:undigestable": 200, "purge_err_clean:halfbacked": 1000, "purge_err_clean:foreign_namesake": 3000,
                    "purge_ok:foreign_namesake": 500, "generate_err_clean:kidless_nofragment": 60, "generate_ok:kidless_fragment": 60, "generate_ok:store_kid": 100,
                    "generate_ok:foreign_namesake": 120, "histories_with_foreign_namesakes": 3000,
                    "generate_ok": 4000, "generate_sign_verified": 4000, "purge_ok": 1000, "generate_err_clean": 4000, "purge_err_clean": 4000,
                    "faults_fired": 8000, "plans_run": 8000, "scenarios": 600, "histories": 20000, "nontrivial": 1500},
-         "thorough": {"generate_ok": 250000, "purge_ok": 60000, "faults_fired": 400000, "plans_run": 8500, "histories": 1000000}},
+         "thorough": {"arg_scenarios": 3000, "real_failure_checked_clean": 3000, "shipped_histories": 50000, "shipped_generate_ok": 60000, "generate_ok": 250000, "purge_ok": 60000, "faults_fired": 400000, "plans_run": 8500, "histories": 1000000}},
     assumptions=["fault model: an injected fault returns an error WITHOUT performing the call's effect (no rollback protocol can be all-or-nothing against a store that lies)",
                  "an error of kind UndoOperationFailed is tolerated when at least one fault fired",
                  "the position of a re-inserted method is free; its scope and references are not"],
@@ -214,9 +214,9 @@ CHECKS["C20"] = cfg(
     "C20", exhaustive=True,
     technique="runtime monitoring with a controlled scheduler: gate-controlled recording handlers, hand-polled futures with a counting waker, enumeration of all completion orders; did:jwk expansion oracle; threaded TSan/Miri flavours",
     level_text="Harness handlers log (table entry, DID) and complete only when the harness opens their gate while resolve/resolve_multiple are polled by hand, so every completion order of up to 5 pending handlers (all 120) is driven, on the Send and the single-threaded resolver: exactly one call on the handler registered for the method, with the input DID; unsupported method => error and no call; resolve_multiple = one entry per distinct DID equal to single resolution, for every order, Err iff some DID fails. did:jwk over generated public JWKs must expand to a document whose single method carries exactly that key.",
-    min={"quick": {"long_list_cases": 60, "long_list_distinct_dids": 20000, "jwk_list_cases": 2500, "jwk_respelled_pairs": 4000, "lookalike_list_cases": 300, "multi_lookups_checked": 40000, "multi_cases": 4000, "multi_ok": 2000, "multi_err": 2000, "orders_enumerated_exhaustively": 2000, "single_ok": 2000, "single_unsupported": 400,
+    min={"quick": {"neardup_list_cases": 1200, "neardup_pairs_hexcase": 1000, "neardup_pairs_lettercase": 400, "neardup_pairs_pct-vs-literal": 400, "neardup_pairs_prefix": 400, "neardup_pairs_duplicate": 400, "neardup_pairs_method": 400, "neardup_lists_as_picky": 200, "neardup_fixed_families": 30, "long_list_cases": 60, "long_list_distinct_dids": 20000, "jwk_list_cases": 2500, "jwk_respelled_pairs": 4000, "lookalike_list_cases": 300, "multi_lookups_checked": 40000, "multi_cases": 4000, "multi_ok": 2000, "multi_err": 2000, "orders_enumerated_exhaustively": 2000, "single_ok": 2000, "single_unsupported": 400,
                    "handler_calls_checked": 7000, "jwk_public_accepted": 3000, "jwk_docs_checked": 5000, "threaded_cases": 80, "distinct:orders": 250, "nontrivial": 500},
-         "thorough": {"multi_cases": 400000, "multi_ok": 100000, "orders_enumerated_exhaustively": 150000, "jwk_docs_checked": 150000, "threaded_cases": 6000}},
+         "thorough": {"neardup_list_cases": 30000, "neardup_pairs_hexcase": 20000, "neardup_fixed_families": 30, "multi_cases": 400000, "multi_ok": 100000, "orders_enumerated_exhaustively": 150000, "jwk_docs_checked": 150000, "threaded_cases": 6000}},
     thorough=[{"flavour": "checked", "shards": 16, "timeout": 3000},
               {"flavour": "tsan", "tier": "quick", "shards": 8, "timeout": 3000, "args": {"scale": 1000}},
               {"flavour": "miri", "tier": "quick", "shards": 16, "timeout": 14400, "args": {"scale": 1}}],
